@@ -35,7 +35,7 @@ LEVEL_TEXT = ("Partial proof. Theorem: next(x) = nextafter(x, +-inf) for EVERY p
               "of two) for every precision and rounding, and on BIT PATTERNS for the traced programs in float16/32/64 (is_power_of_two_shape_*: the dtype dispatch folds to D == x; "
               "is_power_of_two_bit_exact_*: returns 1 iff the normal x is a power of two whenever P*x, Q*x, their difference are finite); subnormals by search. "
               "All regenerated programs are well formed. The 1/2/3-ULP bounds of 3Sum/4Sum/mul_add/dot2/FMA are decided by exact-rational search on the real functions only (not theorems).")
-LEVEL_NOTE = "ULP bounds of 3Sum/4Sum/mul_add/dot2/FMA and the guarded is_power_of_two program: search only (Graillat-Muller proofs not formalised). Known finding: fix_overflow fallback of the FMA variants loses the low product word under cancellation."
+LEVEL_NOTE = "next and is_power_of_two are also theorems on bit patterns with no assumption about the run (next_up/next_down_total and is_power_of_two_total for float16/32/64: Props/C11Total.lean, C11Total2.lean). ULP bounds of 3Sum/4Sum/mul_add/dot2/FMA and the guarded is_power_of_two program: search only (Graillat-Muller proofs not formalised). Known finding: fix_overflow fallback of the FMA variants loses the low product word under cancellation."
 TECHNIQUE = "Lean 4 proof (FP theory over Q, any precision/rounding) tied to regenerated programs + 3-way correspondence + exact-rational ULP search"
 
 FMTS = ["float16", "float32", "float64"]
